@@ -17,7 +17,19 @@ func init() {
 	}
 }
 
+// AsmYCbCrToGray converts with the vectorised kernel when the image has the
+// layout the kernel assumes (4:4:4, origin at 0,0, contiguous rows whose width
+// is a multiple of 8, planes and destination holding every pixel) and with the
+// portable converter otherwise.
 func AsmYCbCrToGray(c *image.YCbCr, pixels []float32) {
+	w, h := c.Rect.Dx(), c.Rect.Dy()
+	if c.SubsampleRatio != image.YCbCrSubsampleRatio444 ||
+		c.Rect.Min.X != 0 || c.Rect.Min.Y != 0 ||
+		c.YStride != w || c.CStride != w || w%8 != 0 || w <= 0 || h <= 0 ||
+		len(pixels) < w*h || len(c.Y) < w*h || len(c.Cb) < w*h || len(c.Cr) < w*h {
+		yCbCrToGrayAlt(c, pixels)
+		return
+	}
 	asmYCbCrToGray(pixels,
 		c.Rect.Min.X, c.Rect.Min.Y, c.Rect.Max.X, c.Rect.Max.Y,
 		c.Y, c.Cb, c.Cr, c.YStride, c.CStride)
